@@ -43,7 +43,7 @@ def run_job(job):
                 for k in keys:
                     r = rng.random()
                     if r < 0.25:                         # a numeric coefficient among the symbols
-                        val = rng.choice([2, -1, 3, Fraction(1, 2)])
+                        val = rng.choice([2, -1, 3, Fraction(1, 2), 0, 0])      # incl. an explicitly stored zero
                         vs.append(sympy.Rational(val.numerator, val.denominator) if isinstance(val, Fraction) else val)
                         vn.append(val)
                     else:
@@ -186,6 +186,8 @@ def run_job(job):
 
 def run_jobs(jobs, procs=16):
     import multiprocessing as mp
+    import kdriver as _K
+    jobs = _K.filter_buildable(jobs)
     if not jobs:
         return []
     with mp.get_context('fork').Pool(min(procs, len(jobs))) as pool:
